@@ -98,15 +98,17 @@ func (p *G2Elt) Data() ([]byte, error) {
 
 func (p *G2Elt) Add(a, b kyber.Point) kyber.Point {
 	aa, bb := a.(*G2Elt), b.(*G2Elt)
+	bInner := bb.inner // p may alias b
 	p.inner.Set(&aa.inner)
-	p.inner.AddAssign(&bb.inner)
+	p.inner.AddAssign(&bInner)
 	return p
 }
 
 func (p *G2Elt) Sub(a, b kyber.Point) kyber.Point {
 	aa, bb := a.(*G2Elt), b.(*G2Elt)
+	bInner := bb.inner // p may alias b
 	p.inner.Set(&aa.inner)
-	p.inner.SubAssign(&bb.inner)
+	p.inner.SubAssign(&bInner)
 	return p
 }
 
